@@ -13,6 +13,7 @@ pub struct GenCfg {
     pub min_log_n: u32,
     pub max_log_n: u32,
     pub max_width: usize,
+    pub min_width: usize,
     pub allow_aux: bool,
     pub max_degree: usize,
     /// allow the occasional very wide trace (64 / 255 columns)
@@ -23,7 +24,7 @@ pub struct GenCfg {
 }
 impl GenCfg {
     pub fn small() -> Self {
-        GenCfg { min_log_n: 3, max_log_n: 8, max_width: 8, allow_aux: true, max_degree: 5, wide: false, max_assertions: 8, long_sequence: false }
+        GenCfg { min_log_n: 3, max_log_n: 8, max_width: 8, min_width: 1, allow_aux: true, max_degree: 5, wide: false, max_assertions: 8, long_sequence: false }
     }
 }
 
@@ -74,8 +75,8 @@ pub fn gen_instance<S: FSpec>(s: &mut Src, cfg: &GenCfg, rec: &mut Rec) -> Insta
         s.pick_copy(&[64usize, 200, 255])
     } else {
         match s.below(4) {
-            0 => 1,
-            _ => s.range(1, cfg.max_width as u64) as usize,
+            0 => cfg.min_width.max(1),
+            _ => s.range(cfg.min_width.max(1) as u64, cfg.max_width as u64) as usize,
         }
     };
     // periodic columns
